@@ -192,7 +192,7 @@ class MultiTypeMap(dict):
                 types=_registered_types(c),
                 signature=self.signatures.get(c, None),
             )
-            for c in candidates
+            for c in _verif_order("candidate-set", candidates)
         ]
 
         candidates = _verif_order("candidates", candidates)
